@@ -236,6 +236,44 @@ def check_init(ctx, db):
             ctx.check(ok, 'R-INIT', '%s#%d/inverted-box' % (qn.replace('gdstk::', ''), len(f.params)), f.loc(), what, 'box not initialised to the inverted/neutral value before the first return: %s' % t[:160])
 
 
+def check_extrema_consumers(ctx, db):
+    """every consumer of Repetition::get_extrema walks the complete list (for explicit repetitions the
+    first entry is the minimum offset, not the zero offset)"""
+    n = 0
+    for f in db.functions:
+        if f.body is None or not f.relfile().startswith('src/'):
+            continue
+        for c in f.walk():
+            if c.k != 'CXXMemberCallExpr' or not (c.callee or '').endswith('Repetition::get_extrema'):
+                continue
+            arr = _strip_casts(c.args[0])
+            if arr.k != 'DeclRefExpr':
+                raise AnalysisBroken('%s: get_extrema result is not a local array' % f.qn)
+            a = arr.n
+            n += 1
+            ctx.touch(f)
+            ptrs = [v for v in f.walk() if v.k == 'VarDecl' and v.child('init') is not None and v.id > c.id and re.search(r'\b%s\.items\b' % a, norm(v.child('init').text()))]
+            loops = [l for l in f.walk() if l.k == 'ForStmt' and l.id > c.id and l.child('init') is not None and re.search(r'\b%s\.count\b' % a, norm(l.child('init').text()) + ' ' + norm(l.child('cond').text() if l.child('cond') is not None else ''))]
+            bad = []
+            for v in ptrs:
+                if norm(v.child('init').text()) != '%s.items' % a:
+                    bad.append('cursor `%s` starts at `%s`' % (v.n, norm(v.child('init').text())))
+            for l in loops:
+                iv = next((v for v in l.child('init').walk() if v.k == 'VarDecl'), None)
+                t0, tc = norm(iv.child('init').text()) if iv is not None else '', norm(l.child('cond').text())
+                if not ((t0 == '%s.count' % a and tc == '(%s > 0)' % iv.n) or (t0 == '0' and tc == '(%s < %s.count)' % (iv.n, a))):
+                    bad.append('loop runs `%s = %s; %s`' % (iv.n if iv is not None else '?', t0, tc))
+            if not ptrs and not loops:
+                raise AnalysisBroken('%s: consumer of the get_extrema list not recognised' % f.qn)
+            ctx.check(not bad, 'R-AGG', '%s/all-extrema@%d' % (f.qn.replace('gdstk::', ''), c.l), c.loc(), 'the list returned by get_extrema is walked from its first entry for all `count` entries', '; '.join(bad) + ': an extreme offset is skipped (for explicit repetitions the first entry is the minimum offset)')
+    ctx.require('R-AGG get_extrema consumers', n, 3)
+    f = db.fn('gdstk::is_multiple_of_pi_over_2')
+    cmpx = [x for x in f.walk() if x.k == 'BinaryOperator' and x.op == '<' and 'fabs' in norm(x.child('lhs').text())]
+    tol = _strip_casts(cmpx[0].child('rhs')).fv if len(cmpx) == 1 else None
+    ctx.check(tol is not None and 0 < tol <= 2e-15, 'R-CONST', 'is_multiple_of_pi_over_2/exact', f.loc(), 'the residual allowed for "multiple of 90 degrees" (%s) is below the spacing of doubles near 2 pi: only exact multiples take the corner-transform shortcut of Reference::bounding_box' % tol,
+              'angles within %s rad of a multiple of 90 degrees are treated as axis-aligned: the bounding-box shortcut then rotates the corners of the child box by an oblique angle and reports a box that is too large' % tol)
+
+
 def run(ctx):
     db = ctx.db
     check_aggregates(ctx, db)
@@ -243,10 +281,11 @@ def run(ctx):
     check_cache_coherence(ctx, db)
     check_extrema_effect(ctx, db)
     check_init(ctx, db)
+    check_extrema_consumers(ctx, db)
 
 
 MANIFEST = dict(
-    text='Decides structural necessary conditions of exact boxes/hulls for every hierarchy: both cell aggregators visit all five element arrays and the hull takes every repetition offset; every running-extremum update compares and assigns matching components, keeps one role per accumulator, covers min.x/min.y/max.x/max.y in each loop and feeds minima from min corners and maxima from max corners; every read of a cached hull/box is guarded by the matching valid flag of the same entry or follows recomputation by the matching function, and cache entries are stored under the cell\'s own name with exactly the computed flag; per-axis extreme offsets never feed a convex hull for Explicit repetitions; every box routine establishes the inverted box before any return; cache-less overloads are thin wrappers. Hull correctness (qhull) and numeric extremes are not decided.',
+    text='Decides structural necessary conditions of exact boxes/hulls for every hierarchy: both cell aggregators visit all five element arrays and the hull takes every repetition offset; every running-extremum update compares and assigns matching components, keeps one role per accumulator, covers min.x/min.y/max.x/max.y in each loop and feeds minima from min corners and maxima from max corners; every read of a cached hull/box is guarded by the matching valid flag of the same entry or follows recomputation by the matching function, and cache entries are stored under the cell\'s own name with exactly the computed flag; per-axis extreme offsets never feed a convex hull for Explicit repetitions; every box routine establishes the inverted box before any return; cache-less overloads are thin wrappers; every consumer of Repetition::get_extrema walks the whole list; the axis-aligned shortcut of Reference::bounding_box is taken only for exact multiples of 90 degrees. Hull correctness (qhull) and numeric extremes are not decided.',
     note='Trusted: clang front end, gx, sa rules; Repetition::get_extrema semantics are C11\'s obligations.',
     technique='aggregate-completeness and flag-guard dominance rules over typed AST/CFG + running-extremum idiom algebra + who-may-flow effect rule',
     design='§4 C09')
